@@ -1,2 +1,2 @@
-import NipyVerif.Model.C16
-def main : IO Unit := NipyVerif.driverLoop NipyVerif.C16.run
+import NipyVerif.Model.C16Run
+def main : IO Unit := NipyVerif.driverLoop NipyVerif.C16.runAll
